@@ -658,7 +658,7 @@ var Engine = &core.Engine{
 		"embedded structs: keys stay at the top level; Go field names are unique over the whole model except for the duplicate pairs, so the field-name spelling of Select/Omit/map keys is unambiguous; embedded pointers are non-nil whenever a field below them is set",
 		"duplicate columns: exactly two fields share a column, they have the same Go name and sit on paths of DIFFERENT length (two fields on paths of equal length sharing a column, duplicates with another Go name via column:, and three or more fields per column are not generated: which field owns the column is not fixed by the statement); one of the two has either no permission at all (then the other one's rules apply unchanged: it is written where the statement says so, and the permission-less field's value never is) or is the deeper, promoted field shadowed by an outer field with some permission (Go's shadowing: the outer field owns the column, the inner one is always left zero); names and map keys address the owning field; duplicates carry no default and are never key, tracked-time or ignored fields",
 		"slice and map kinds: a value handed over in a MAP (Updates(map), Update, UpdateColumn(s)(map), clause.Assignments) does not pass through the field's serializer, so map values of serializer:json fields are given in their stored form (the JSON text), nil or gorm.Expr; []byte and the Valuer type are given as Go values; conditions never compare such a column; the JSON texts contain no characters json.Marshal escapes",
-		"RETURNING: named columns never include an unreadable (->:false) column - gorm fails to scan it back ('unsupported Scan, storing driver.Value type ... into type *struct') and the default transaction rolls the write back: the same read-back matter as the RETURNING of database-default fields above, outside this statement - and name all key columns or none (a part of a composite key scanned by position into the elements of a Model(slice) mixes the keys of different rows); map creates carry no Returning; CreateInBatches is not combined with Clauses(clause.Returning{}) (all columns): gorm.Scan panics 'reflect.Value.SetLen using unaddressable value' on the non-addressable sub-slice CreateInBatches hands to the create callback, before anything is committed (const genBatchReturningAll; witness in the report of the strengthening round) - a read-back matter as well",
+		"RETURNING: named columns never include an unreadable (->:false) column - gorm fails to scan it back ('unsupported Scan, storing driver.Value type ... into type *struct') and the default transaction rolls the write back: the same read-back matter as the RETURNING of database-default fields above, outside this statement - and name all key columns or none (a part of a composite key scanned by position into the elements of a Model(slice) mixes the keys of different rows); map creates carry no Returning; CreateInBatches under Clauses(clause.Returning{}) (all columns) is generated since the panic it caused was repaired (const genBatchReturningAll)",
 		"second finisher on a handle: only where what the handle addresses after the first finisher is fixed - not when the value is the model itself (assigned / loaded by the first finisher), not under RETURNING with a key-less Model(&T{}) (RETURNING loads the first returned row's key into it), not under RETURNING * with a Model(array of *T) (unfilled elements are left nil and the next finisher dereferences them), and not under RETURNING with a Model(slice) when the first finisher addressed no row (the slice is emptied); a column-update finisher leaves the handle in skip-hooks mode, so only column-update finishers follow one (whether a later Updates on that handle is hook-running is not fixed by the statement); Select('*') lets a second struct value follow only where it can carry the key of the single addressed row; a second create follows only plain Create / CreateInBatches of structs; violations of the second finisher have the signature second-finisher-on-handle/<family>/<class>",
 		"a permission-less duplicate on the shorter path is always declared AFTER the embedded struct that holds the writable field; declared before it, it is the first to claim the column and gorm keeps it (the writable field is ignored on every write path): which of two fields owns a column is not fixed by the statement, so that order is not generated",
 	},
